@@ -1,4 +1,5 @@
 import Bxh.Model.Chain
+import Bxh.Model.Persist
 import Driver.Util
 namespace Driver.StoreEngine
 open Bxh Bxh.Chain
@@ -79,6 +80,15 @@ def step (s : St) (ws : List String) : St × String :=
     | none => (s, "PANIC append-out-of-order")
     | some (after, b) =>
       let cr := crashed n after m
+      -- the abstract recovery model (about which C11_recover_iff is proved) must predict the same outcome as the
+      -- concrete one; a difference is printed and shows up as a disagreement with the implementation
+      let abs := Bxh.Persist.recover b.height { s := m.s, c := m.c, b := m.b }
+      let agree (o : Except OpenErr Node) : Bool :=
+        match o, abs with
+        | .error .stateHigher, .openError => true
+        | .ok n', .opened c st bf => n'.cmeta.1 == c && n'.st.maxJ == st && n'.blocks == bf
+        | _, _ => false
+      if !agree (reopen cr) then (s, "MODEL-MISMATCH abstract Persist.recover vs concrete Chain.reopen") else
       match reopen cr with
       | .error .stateHigher => ({ n := none }, s!"h={b.height} open-error higher")
       | .error .noJournalAtOpen => ({ n := none }, s!"h={b.height} open-error nojournal-at-open")
